@@ -7,8 +7,7 @@ arm).  A call to one of the combinators listed below is replaced by exactly the 
     D = Option::map_or(o, d, f)     =>   switch discriminant(o) { Some: D = f((o as Some).0) ; None: D = d }
 
 with the closure invocation written as `FnOnce::call_once(f, (x,))`, which the inliner then replaces by the closure body
-when `f` is a closure of the crate.  Purely structural; value-selecting combinators (`unwrap_or`, `unwrap_or_else`,
-`unwrap_or_default`) are left as calls (the rules treat them as value expressions)."""
+when `f` is a closure of the crate.  Purely structural."""
 import copy, re
 
 # what each arm produces: ('call', closure arg index, payload?) | ('arg', index) | ('payload',) | ('const_bool', v) |
@@ -24,6 +23,10 @@ def W(adt, variant, vidx, inner=None):
 
 TEMPLATES = {
     # callee: (enum adt, payload-variant index -> expression, other variant -> expression)
+    'std::option::Option::<T>::unwrap_or': (OPTION, {1: ('payload',), 0: ('arg', 1)}),
+    'std::option::Option::<T>::unwrap_or_else': (OPTION, {1: ('payload',), 0: ('call', 1, False)}),
+    'std::result::Result::<T, E>::unwrap_or': (RESULT, {0: ('payload',), 1: ('arg', 1)}),
+    'std::result::Result::<T, E>::unwrap_or_else': (RESULT, {0: ('payload',), 1: ('call', 1, True)}),
     'std::option::Option::<T>::map_or': (OPTION, {1: ('call', 2, True), 0: ('arg', 1)}),
     'std::option::Option::<T>::map_or_else': (OPTION, {1: ('call', 2, True), 0: ('call', 1, False)}),
     'std::option::Option::<T>::is_some_and': (OPTION, {1: ('call', 1, True), 0: ('const_bool', 0)}),
@@ -177,6 +180,64 @@ def run(fns):
     out = {}
     for f in fns:
         n = Expander(f).run()
+        if n:
+            out[f['id']] = n
+    return out
+
+
+# ---------------------------------------------------------------------------------------------------------------------
+# bool -> bit selects.  `if b { 1 << k } else { 0 }` is the value `(b as T) << k` written as control flow; the bit-level
+# rules (byte layouts, flag bytes) reason about values.  A diamond whose two arms only assign the constants 2^k and 0 to
+# the same local, selected by a bool local, is replaced by `x = (b as T) * 2^k`.
+def _single_const_assign(blk):
+    if blk['cleanup'] or len(blk['stmts']) != 1 or blk['term']['k'] != 'goto':
+        return None
+    st = blk['stmts'][0]
+    if st['lhs']['p'] or st['rv']['k'] != 'use' or st['rv']['a']['k'] != 'const' or not isinstance(st['rv']['a'].get('val'), int):
+        return None
+    return st['lhs']['l'], st['rv']['a']['val'], st['rv']['a'].get('ty'), blk['term']['target']
+
+
+def bool_selects(fns):
+    out = {}
+    for f in fns:
+        blocks = f['blocks']
+        npred = {}
+        for b in blocks:
+            t = b['term']
+            ss = [t['target']] if t['k'] in ('goto', 'call', 'drop', 'assert') and t.get('target') is not None else \
+                ([tg for _, tg in t['targets']] + [t['otherwise']] if t['k'] == 'switch' else [])
+            for s in ss:
+                npred[s] = npred.get(s, 0) + 1
+        n = 0
+        for b in blocks:
+            t = b['term']
+            if b['cleanup'] or t['k'] != 'switch' or t['discr']['k'] not in ('copy', 'move') or t['discr']['place']['p']:
+                continue
+            d = t['discr']['place']['l']
+            if f['locals'][d]['ty'] != 'bool' or len(t['targets']) != 1 or t['targets'][0][0] != 0:
+                continue
+            bf, bt = t['targets'][0][1], t['otherwise']
+            if bf == bt or npred.get(bf) != 1 or npred.get(bt) != 1:
+                continue
+            af, at = _single_const_assign(blocks[bf]), _single_const_assign(blocks[bt])
+            if not af or not at or af[0] != at[0] or af[3] != at[3] or af[1] != 0 or at[1] <= 0 or at[1] & (at[1] - 1):
+                continue
+            x, ty, join = at[0], at[2], at[3]
+            if ty not in ('u8', 'u16', 'u32', 'u64', 'usize'):
+                continue
+            f['locals'].append({'ty': ty, 'name': ''})
+            tmp = len(f['locals']) - 1
+            line = blocks[bt]['stmts'][0].get('line', 0)
+            b['stmts'].append({'lhs': {'l': tmp, 'p': []}, 'rv': {'k': 'cast', 'kind': 'IntToInt', 'a': {'k': 'copy', 'place': {'l': d, 'p': []}}, 'ty': ty}, 'line': line})
+            b['stmts'].append({'lhs': {'l': x, 'p': []}, 'rv': {'k': 'bin', 'op': 'Mul', 'a': {'k': 'move', 'place': {'l': tmp, 'p': []}},
+                                                                    'b': {'k': 'const', 'ty': ty, 'val': at[1]}}, 'line': line})
+            b['term'] = {'k': 'goto', 'target': join, 'span': t.get('span'), 'if_converted': True}
+            for dead in (bf, bt):
+                blocks[dead]['stmts'] = []
+                blocks[dead]['term'] = {'k': 'unreachable'}
+                blocks[dead]['dead'] = True
+            n += 1
         if n:
             out[f['id']] = n
     return out
